@@ -11,7 +11,7 @@ def run(rec):
     cm = importlib.import_module(rec['contract_module'])
     c = None
     for k in cm.CONTRACTS:
-        if k.qualname == rec['qualname'] and k.module == rec['module']:
+        if k.name == rec.get('name', rec['qualname']) and k.module == rec['module']:
             c = k
     if c is None:
         return {'error': 'contract not found'}
